@@ -154,6 +154,66 @@ theorem C20_input_kind_irrelevant (f : Flags) (o : OutputKind) (lib : LibResult)
     outcome f .file o lib = outcome f .stdin o lib := by
   cases o <;> cases lib <;> rfl
 
+/-! ### a sink whose writes fail (I/O error while delivering the CSS) -/
+
+/-- Without a failing sink nothing changes. -/
+theorem C20_outcomeIO_no_failure (b : Bool) (f : Flags) (i : InputKind) (o : OutputKind) (lib : LibResult) :
+    outcomeIO b f i o lib false = outcome f i o lib := by
+  simp [outcomeIO]
+
+/-- **Specified behaviour** (`main` flushes the sink and propagates the error): whenever there is
+    CSS to deliver and the sink cannot take it, the exit status is non-zero, the operating-system
+    error is on stderr (after the warnings), and nothing is reported as delivered. -/
+theorem C20_sink_failure_exit_nonzero (f : Flags) (i : InputKind) (o : OutputKind) (css w : String)
+    (ho : o ≠ .fileUnopenable) (hc : (css == "") = false) :
+    let out := outcomeIO true f i o (.ok css w) true
+    out.exitZero = false ∧ out.stderr = [.text w, .osError] ∧ out.stdout = "" ∧ out.file = none := by
+  cases o <;> simp_all [outcomeIO]
+
+/-- A library error is reported the same way whether or not the sink works (nothing is written). -/
+theorem C20_sink_failure_lib_error (b : Bool) (f : Flags) (i : InputKind) (o : OutputKind) (r w : String)
+    (ho : o ≠ .fileUnopenable) :
+    let out := outcomeIO b f i o (.err r w) true
+    out.exitZero = false ∧ out.stdout = "" ∧ out.stderr = [.text w, .text (r ++ "\n")] := by
+  cases o <;> simp_all [outcomeIO]
+
+/-- Where the code as it stands differs from the specified behaviour: exactly for non-empty CSS
+    without a newline and shorter than stdout's buffer, sent to a failing stdout. -/
+theorem C20_asFound_differs_iff (f : Flags) (i : InputKind) (o : OutputKind) (lib : LibResult) (sf : Bool) :
+    outcomeIO false f i o lib sf ≠ outcomeIO true f i o lib sf ↔
+      (sf = true ∧ o = .stdout ∧ ∃ css w, lib = .ok css w ∧ unterminatedSmall css = true) := by
+  constructor
+  · intro h
+    cases sf
+    · simp [outcomeIO] at h
+    · cases o <;> cases lib <;> simp_all [outcomeIO]
+      rename_i css w
+      by_cases hs : unterminatedSmall css = true
+      · exact hs
+      · simp_all
+  · rintro ⟨rfl, rfl, css, w, rfl, hs⟩
+    have hne : (css == "") = false := by
+      unfold unterminatedSmall at hs
+      simp only [Bool.and_eq_true, bne_iff_ne, ne_eq] at hs
+      simpa using hs.1.1
+    simp [outcomeIO, hs, hne]
+
+/-- As found: `a{b:c}` (compressed output, 6 bytes, no newline) to a full stdout exits 0 with an
+    empty stderr although nothing was delivered — the clause "on any I/O error it exits non-zero,
+    prints the error on stderr" fails (known finding C20-unflushed-stdout). -/
+theorem C20_asFound_unflushed_stdout_swallows_error :
+    (outcomeIO false {} .file .stdout (.ok "a{b:c}" "") true).exitZero = true ∧
+    (outcomeIO false {} .file .stdout (.ok "a{b:c}" "") true).stderr = [.text ""] ∧
+    (outcomeIO true {} .file .stdout (.ok "a{b:c}" "") true).exitZero = false := by
+  simp [outcomeIO, unterminatedSmall]
+  decide
+
+example : outcomeIO false {} .file .stdout (.ok "a {\n  b: c;\n}\n" "") true =
+    { exitZero := false, stdout := "", stderr := [.text "", .osError], file := none } := by
+  simp [outcomeIO, unterminatedSmall]
+example : agrees (outcomeIO true {} .file .file (.ok "a{b:c}" "W\n") true)
+    ⟨1, "", "W\nError: Os { code: 28 }", none⟩ = true := by decide
+
 /-- P̂ accepts exactly the model's own outcome (sanity of the oracle the driver evaluates). -/
 theorem C20_agrees_outcome (f : Flags) (i : InputKind) (o : OutputKind) (lib : LibResult) (h : o ≠ .fileUnopenable) :
     agrees (outcome f i o lib)
